@@ -10,15 +10,19 @@ pub const SOLVERS: [&str; 5] = ["cg", "bicg1", "bicg2", "bicgstab", "qmr"];
 pub fn instances(tier: &str) -> Vec<String> {
     let mut v = Vec::new();
     for s in SOLVERS {
-        for pat in ["full", "diag", "upper"] {
-            v.push(format!("ok:solver={},n=2,pat={},iters=0", s, pat));
-            v.push(format!("ok:solver={},n=2,pat={},iters=1", s, pat));
-        }
-        v.push(format!("ok:solver={},n=1,pat=full,iters=1", s));
-        v.push(format!("ok:solver={},n=1,pat=full,iters=2", s));
-        if tier == "thorough" {
-            v.push(format!("ok:solver={},n=2,pat=full,iters=2", s));
-            v.push(format!("ok:solver={},n=3,pat=full,iters=1", s));
+        // rhs=zero: b is literally zero; rhs=nz: ||b|| != 0 assumed.  Together they cover every right-hand side;
+        // splitting here (instead of on the solver's own `normb == 0` test) keeps each query small.
+        for rhs in ["zero", "nz"] {
+            for pat in ["full", "diag", "upper"] {
+                v.push(format!("ok:solver={},n=2,pat={},iters=0,rhs={}", s, pat, rhs));
+                v.push(format!("ok:solver={},n=2,pat={},iters=1,rhs={}", s, pat, rhs));
+            }
+            v.push(format!("ok:solver={},n=1,pat=full,iters=1,rhs={}", s, rhs));
+            v.push(format!("ok:solver={},n=1,pat=full,iters=2,rhs={}", s, rhs));
+            if tier == "thorough" {
+                v.push(format!("ok:solver={},n=2,pat=full,iters=2,rhs={}", s, rhs));
+                v.push(format!("ok:solver={},n=3,pat=full,iters=1,rhs={}", s, rhs));
+            }
         }
     }
     v
@@ -68,14 +72,49 @@ fn true_residual(dense: &[Vec<Sym>], b: &[Sym], x: &[Sym]) -> (Sym, Sym) {
     (rr, bb)
 }
 
+/// The success exit is guarded by a test  sqrt(S)/N <= tol  (or <).  Decide the property in three solver steps:
+///  (1) S, read off the term of that last decision, equals ||b - A x||^2 for the final x (the residual recurrence
+///      tracks the true residual) - a polynomial identity over the path's quotient variables;
+///  (2) N is sqrt(||b||^2), or the constant 1 on a path where ||b|| = 0 was decided;
+///  (3) abstractly, sqrt(S)/N <= tol with tol >= 0 implies S <= tol^2 N^2.
+/// Returns false when the last decision does not have that shape (then the caller asks for the goal directly).
+fn chain(solver: &str, k: usize, rr: Sym, bb: Sym, tol: Sym) -> bool {
+    let (atom, val) = match last_decision() { Some(x) => x, None => return false };
+    note(format!("last decision: {:?} = {}", atom, val));
+    // `resid <= tol` is !(tol < resid); `resid < tol` is (resid < tol)
+    let resid = match (&atom, val) { (B::Lt(t, r), false) if *t == tol.id() => Sym::from_id(*r), (B::Lt(r, t), true) if *t == tol.id() => Sym::from_id(*r), _ => return false };
+    note(format!("resid = {}", resid.show()));
+    let (num, den) = match node_of(resid) {
+        Node::Div(n, d) => (Sym::from_id(n), Sym::from_id(d)),
+        Node::Sqrt(_) => (resid, Sym::lit(1.0)), // divided by the constant 1 (zero right-hand side)
+        _ => return false,
+    };
+    let s_term = match node_of(num) { Node::Sqrt(t) => Sym::from_id(t), _ => return false };
+    let ok = |p: Proof| p == Proof::Solver || p == Proof::Syntactic;
+    let mut all = ok(prove_eq(&format!("{}: Ok({}): the tested residual norm^2 equals ||b - A x||^2 of the returned x", solver, k), s_term, rr));
+    let one = den.const_val().map(|c| c == CVal::R(Rat::ONE)).unwrap_or(false);
+    if one {
+        all &= ok(prove(&format!("{}: Ok({}): the norm of b was replaced by 1 only because b = 0", solver, k), eq(bb, z())));
+    } else {
+        match node_of(den) { Node::Sqrt(t) => { all &= ok(prove_eq(&format!("{}: Ok({}): the test divides by ||b||", solver, k), Sym::from_id(t), bb)); all &= ok(prove(&format!("{}: Ok({}): ||b|| != 0 on this path", solver, k), ne(bb, z()))); } _ => return false }
+    }
+    // abstract step on fresh values
+    let (s2, n2, s, nn, v, t) = (Sym::var("S"), Sym::var("N2"), Sym::var("s"), Sym::var("n"), Sym::var("v"), Sym::var("t"));
+    let hyp = B::and(vec![le(z(), s), eq(s * s, s2), le(z(), nn), eq(nn * nn, n2), ne(nn, z()), eq(v * nn, s), le(v, t), le(z(), t)]);
+    all &= ok(prove("norm step: sqrt(S)/N <= t and t >= 0 imply S <= t^2 N^2", B::implies(hyp, le(s2, t * t * n2))));
+    all
+}
+
 pub fn body(inst: &str) {
     let (_, p) = parse_inst(inst);
     let (solver, n, iters) = (p["solver"].clone(), geti(&p, "n"), geti(&p, "iters"));
     let (a, dense) = build(n, &p["pat"]);
-    let b = var_vec("b", n);
+    let zero_rhs = p.get("rhs").map(|s| s == "zero").unwrap_or(false);
+    let b = if zero_rhs { vec![z(); n] } else { var_vec("b", n) };
     let x0 = var_vec("x", n);
     let tol = Sym::var("tol");
     assume(le(z(), tol));
+    if !zero_rhs { let mut bb = z(); for v in &b { bb = bb + *v * *v; } assume(ne(bb, z())); }
     let bv = Vector::create(b.clone());
     let mut xv = Vector::create(x0.clone());
     let r = catch(|| call(&solver, &a, &bv, &mut xv, iters, tol));
@@ -89,7 +128,10 @@ pub fn body(inst: &str) {
                 B::and(vec![ne(bb, z()), le(rr, tol * tol * bb)]),
                 B::and(vec![eq(bb, z()), le(rr, tol * tol)]),
             ]);
-            prove(&format!("{}: Ok({}) => true relative residual <= tol", solver, k), goal);
+            if !chain(&solver, k, rr, bb, tol) {
+                // the stopping test is not of the recognised form: ask the solver for the goal directly
+                prove(&format!("{}: Ok({}) => true relative residual <= tol", solver, k), goal);
+            }
             if k == 0 { let same = x.len() == n && (0..n).all(|i| x[i].same(x0[i])); prove(&format!("{}: Ok(0) leaves x untouched", solver), if same { B::True } else { B::False }); }
         }
         Ok(Err(_)) => {
